@@ -57,6 +57,20 @@ def matrix(tier):
     from .. import matrix as mx
     for i, c in enumerate(mx.relation_cells("xml")):
         yield dict(c, fmt="xml", opts={"force_types": bool(i % 2)}, loaded=True)
+    # a literal whose datatype lives in the DEFAULT namespace (document level / bundle level)
+    nd = lambda l: {"ns": "http://d.org/", "local": l, "prefix": "", "as": "qn"}
+    ex = lambda l: {"ns": "http://a/", "local": l, "prefix": "ex", "as": "qn"}
+    lit = {"k": "lit", "v": "12.5", "dt": nd("centimetre")}
+    for fmt in ("json", "xml"):
+        for ft in (False, True):
+            yield {"profile": fmt, "fmt": fmt, "opts": {"force_types": ft} if fmt == "xml" else {},
+                   "ops": [["ns", 0, "ex", "http://a/"], ["default", 0, "http://d.org/"],
+                           ["rec", 0, "entity", ex("e1"), {}, [[ex("length"), lit], [gen.prov_name("value"), lit]], "factory"]],
+                   "cell": ["default-ns-datatype", fmt, ft, "document"]}
+            yield {"profile": fmt, "fmt": fmt, "opts": {"force_types": ft} if fmt == "xml" else {},
+                   "ops": [["ns", 0, "ex", "http://a/"], ["bundle", ex("b1"), "bundle"], ["default", 1, "http://d.org/"],
+                           ["rec", 1, "entity", ex("e1"), {}, [[ex("length"), lit]], "factory"]],
+                   "cell": ["default-ns-datatype", fmt, ft, "bundle"]}
     # formal arguments given in an unusual ORDER over time: the end time at creation, the start time later
     n = lambda l: {"ns": "http://a/", "local": l, "prefix": "ex", "as": "qn"}
     for ft in (False, True):
